@@ -38,7 +38,7 @@ def obligations(tier):
            bounds="6 local times around a fall-back transition of a fold-aware tzinfo (fold 0 / 1) x 6 settings x 4 routes (STIXdatetime, parse_into_datetime, property, object)"),
         CH("timestamp_objects_into_constructors", "props.h_C15", "timestamp_objects", 300, mode="E1s", functions=F[1:2] + ["stix2.v20.common._should_set_millisecond"],
            bounds="STIXdatetime values carrying each of the 6 precision settings x 4 microsecond patterns into 6 constructors (2.0/2.1 marking definition, identity, "
-                  "sighting): write/read/write fixed point; deep copies write what the original wrote"),
+                  "sighting): write/read/write fixed point; deep copies write what the original wrote; a created time given as an ObjectFactory / Environment default is written as when given directly"),
         CH("date_inputs_enumerated", "props.h_C15", "dates", 300, mode="E1s", functions=F[1:2], bounds="8 dates x 6 settings (midnight UTC)"),
         JOB("order_preserved", M, "job_order", 60, engine="smt", functions=F[1:2],
             bounds="all pairs of microsecond values 0..999999, 3x2 settings (z3 Int, no bound on the arithmetic)"),
